@@ -79,7 +79,27 @@ fn classify(front: &str, base: &str, zone: &Zone, text: &[char], taints: &[Strin
     if front == "ruby" && base == "word-in-delimiter" && (zone.what == "block-opener" || zone.what == "block-closer") {
         return "c04-ruby-begin-end-delimiter".into();
     }
+    // (w25) Markdown with lone CR as the line terminator (a line ending of CommonMark): pulldown-cmark
+    // does not end ATX headings, fenced code blocks, HTML blocks / comments, `$$` blocks and `---`
+    // metadata blocks at a lone CR — fence bodies are linted, everything after an HTML block or `~~~` fence is lost
+    if front == "markdown" && base != "panic" && base != "out-of-bounds" && lone_cr_blocks(text) {
+        return "c04-markdown-lone-cr-blocks".into();
+    }
     base.to_string()
+}
+
+/// the text ends lines with a lone `\r` and holds a block construct that pulldown-cmark does not
+/// end there: an ATX heading, a code fence, an HTML block / comment, a `$$` block, a `---` metadata block
+fn lone_cr_blocks(text: &[char]) -> bool {
+    let lone = (0..text.len()).any(|i| text[i] == '\r' && text.get(i + 1) != Some(&'\n'));
+    if !lone || text.contains(&'\n') {
+        return false;
+    }
+    let s: String = text.iter().collect();
+    s.split('\r').any(|l| {
+        let l = l.trim_start();
+        l.starts_with('#') || l.starts_with("```") || l.starts_with("~~~") || l.starts_with('<') || l.starts_with("$$") || l.starts_with("---")
+    })
 }
 
 /// the property's clauses on the final tokens of one generated file
@@ -244,12 +264,502 @@ fn parse_corpus(s: &str) -> (String, Vec<Zone>) {
     (text, zones)
 }
 
+// ------------------------------------------------------------------------------------------
+// w25: the same clauses at the OTHER call sites of the front-ends — the language server's own
+// language-id dispatch (`Backend::update_document`), the command line's file-extension dispatch
+// (`harper-cli parse`: `load_file` → `CommentParser::new_from_filename`), the JS API
+// (`harper_wasm::Linter::lint`, `Language::{Plain, Markdown}`) — and on files derived from the
+// generated ones (long, no final line end, leading blank lines, lone CR, no prose at all).
+// ------------------------------------------------------------------------------------------
+
+/// class of a failure seen at another call site: the recorded finding if the construct is one,
+/// else `<origin>-<base>`
+fn classify_at(origin: &str, front: &str, base: &str, zone: &Zone, text: &[char], taints: &[String]) -> String {
+    let c = classify(front, base, zone, text, taints);
+    if c == base { format!("{}-{}", origin, base) } else { c }
+}
+
+/// The clauses on what a call site REPORTS for a file with planted sentinels when only the
+/// spelling rule is on: `spans` are the character ranges it flagged. Every planted (misspelled)
+/// prose word is flagged exactly once at exactly its range; nothing is flagged inside a non-prose
+/// or ignored segment, a delimiter, or a correctly spelled prose word.
+pub fn judge_spans(origin: &str, front: &str, text: &[char], taints: &[String], spans: &[(usize, usize)], zones: &[Zone], planted: &[usize], out: &mut Out) {
+    let n = text.len();
+    let mut hit = vec![0usize; zones.len()];
+    let mut other = vec![0usize; zones.len()];
+    for &(s, e) in spans {
+        if s > e || e > n {
+            out.fails.push((format!("{}-out-of-bounds", origin), format!("flagged range {}-{} outside text of length {}", s, e, n)));
+            continue;
+        }
+        if s == e {
+            continue;
+        }
+        let mut z = zones.partition_point(|z| z.e <= s);
+        while z < zones.len() && zones[z].s < e {
+            let zn = &zones[z];
+            match zn.kind {
+                ZK::Prose => {
+                    if s == zn.s && e == zn.e && planted.contains(&z) {
+                        hit[z] += 1;
+                    } else {
+                        other[z] += 1;
+                        out.fails.push((
+                            classify_at(origin, front, "word-misplaced", zn, text, taints),
+                            format!("flagged range {}-{} overlaps the prose word `{}` at {}-{} without being exactly a misspelled word", s, e, zn.what, zn.s, zn.e),
+                        ));
+                    }
+                }
+                ZK::NonProse => out.fails.push((classify_at(origin, front, "nonprose-offered", zn, text, taints), format!("flagged range {}-{} overlaps non-prose segment `{}` at {}-{}", s, e, zn.what, zn.s, zn.e))),
+                ZK::Delim => out.fails.push((classify_at(origin, front, "word-in-delimiter", zn, text, taints), format!("flagged range {}-{} overlaps delimiter `{}` at {}-{}", s, e, zn.what, zn.s, zn.e))),
+                ZK::Ignored => out.fails.push((classify_at(origin, front, "ignored-offered", zn, text, taints), format!("flagged range {}-{} overlaps ignored segment `{}` at {}-{}", s, e, zn.what, zn.s, zn.e))),
+            }
+            z += 1;
+        }
+    }
+    for &z in planted {
+        out.words_checked += 1;
+        if hit[z] != 1 && other[z] == 0 {
+            let zn = &zones[z];
+            out.fails.push((
+                classify_at(origin, front, if hit[z] == 0 { "prose-missed" } else { "prose-duplicated" }, zn, text, taints),
+                format!("misspelled prose word `{}` at {}-{} is flagged {} times", zn.what, zn.s, zn.e, hit[z]),
+            ));
+        }
+    }
+}
+
+/// an LSP position (line = number of `\n` before it, character = UTF-16 units from the line
+/// start) as a character offset of `text`; None if it is not a character boundary of that line
+fn lsp_to_char(text: &[char], line: u64, character: u64) -> Option<usize> {
+    let mut start = 0usize;
+    let mut l = 0u64;
+    while l < line {
+        let p = text[start..].iter().position(|c| *c == '\n')?;
+        start += p + 1;
+        l += 1;
+    }
+    let mut units = 0u64;
+    let mut k = start;
+    while units < character {
+        let c = *text.get(k)?;
+        if c == '\n' {
+            return None;
+        }
+        units += c.len_utf16() as u64;
+        k += 1;
+    }
+    if units == character { Some(k) } else { None }
+}
+
+/// `{rule: false, …, "SpellCheck": true}` over every rule key of the curated group
+fn spelling_only() -> Value {
+    use harper_core::linting::LintGroup;
+    let g = LintGroup::new_curated(FstDictionary::curated(), harper_core::Dialect::American);
+    let mut m = serde_json::Map::new();
+    for k in g.iter_keys() {
+        m.insert(k.to_string(), json!(k == "SpellCheck"));
+    }
+    m.insert("SpellCheck".into(), json!(true));
+    Value::Object(m)
+}
+
+pub struct SiteJob {
+    pub id: String,
+    pub ilt: bool,
+    pub b: B,
+    pub planted: Vec<usize>,
+}
+
+fn site_input(stream: &str, j: &SiteJob, ext: &str) -> Value {
+    let taints: Vec<String> = j.b.taints.iter().map(|s| s.to_string()).collect();
+    let mut v = input_json(&j.id, j.ilt, &j.b.text, &j.b.zones, &taints);
+    v["stream"] = json!(stream);
+    v["planted"] = json!(j.planted);
+    v["ext"] = json!(ext);
+    v
+}
+
+fn site_job_from_json(v: &Value) -> SiteJob {
+    let mut b = B::new(false);
+    b.text = v["text"].as_str().unwrap_or("").to_string();
+    b.n = b.text.chars().count();
+    b.zones = zones_from_json(&v["zones"]);
+    // (taints are `&'static str` in the builder: the recorded ones are matched against the known list)
+    for t in v["taints"].as_array().map(|a| a.iter().filter_map(|x| x.as_str()).collect::<Vec<_>>()).unwrap_or_default() {
+        for k in ["c-define-comment-opener", "c-define-trailing-comment", "jsx-text-comment-opener", "go-directive-empty-tail"] {
+            if t == k {
+                b.taint(k);
+            }
+        }
+    }
+    SiteJob {
+        id: v["frontend"].as_str().unwrap_or("markdown").to_string(),
+        ilt: v["ilt"].as_bool().unwrap_or(false),
+        b,
+        planted: v["planted"].as_array().map(|a| a.iter().filter_map(|x| x.as_u64().map(|u| u as usize)).collect()).unwrap_or_default(),
+    }
+}
+
+fn site_files(rng: &mut Rng, id: &str, n: usize, markers: &[String], ilt_every: usize) -> Vec<SiteJob> {
+    let mut out = vec![];
+    let mut tries = 0;
+    while out.len() < n && tries < n * 10 {
+        tries += 1;
+        let ilt = ilt_every > 0 && tries % ilt_every == 0;
+        let Some(mut b) = cgen::gen_file(rng, id, ilt, markers) else { break };
+        let planted = cgen::plant(rng, &mut b);
+        if planted.is_empty() {
+            continue;
+        }
+        out.push(SiteJob { id: id.to_string(), ilt, b, planted });
+    }
+    out
+}
+
+/// one language id, one server session: every file is opened under its language id with the
+/// spelling rule alone; the publication is judged
+fn server_session(jobs: &[SiteJob], linters: &Value) -> Vec<Out> {
+    use crate::lsclient::*;
+    let mut outs: Vec<Out> = vec![];
+    let r: Result<(), LsError> = (|| {
+        let cfg0 = json!({"harper-ls": {"linters": linters}});
+        let mut ls = LsSession::start()?;
+        ls.initialize(&cfg0)?;
+        for (n, j) in jobs.iter().enumerate() {
+            let mut out = Out { fails: vec![], counts: vec![], words_checked: 0, panicked: false };
+            let cfg = json!({"harper-ls": {"linters": linters, "markdown": {"IgnoreLinkTitle": j.ilt}}});
+            let uri = format!("file:///c04-server/{}/f{}.src", j.id.replace(' ', "_"), n);
+            let text: Vec<char> = j.b.text.chars().collect();
+            let taints: Vec<String> = j.b.taints.iter().map(|s| s.to_string()).collect();
+            let step: Result<(), LsError> = (|| {
+                ls.notify("textDocument/didOpen", did_open(&uri, &j.id, &j.b.text))?;
+                ls.quiesce(&cfg)?;
+                Ok(())
+            })();
+            if let Err(e) = step {
+                out.panicked = true;
+                let dummy = Zone { s: 0, e: 0, kind: ZK::Ignored, what: String::new() };
+                out.fails.push((classify_at("server", &j.id, "panic", &dummy, &text, &taints), format!("the server did not survive didOpen: {}", trunc(&e.to_string(), 200))));
+                outs.push(out);
+                return Err(e);
+            }
+            match ls.last_publication(&uri).cloned() {
+                None => out.fails.push(("server-no-publication".into(), format!("didOpen with languageId {:?} was not answered by a publishDiagnostics", j.id))),
+                Some(p) => {
+                    let mut spans = vec![];
+                    for d in p.as_array().cloned().unwrap_or_default() {
+                        let (sl, sc, el, ec) = (d["range"]["start"]["line"].as_u64(), d["range"]["start"]["character"].as_u64(), d["range"]["end"]["line"].as_u64(), d["range"]["end"]["character"].as_u64());
+                        let (Some(sl), Some(sc), Some(el), Some(ec)) = (sl, sc, el, ec) else { continue };
+                        match (lsp_to_char(&text, sl, sc), lsp_to_char(&text, el, ec)) {
+                            (Some(s), Some(e)) => spans.push((s, e)),
+                            _ => out.fails.push(("server-range-not-on-a-character".into(), format!("published range {}:{}-{}:{} is not a pair of character boundaries of the text", sl, sc, el, ec))),
+                        }
+                    }
+                    out.counts.push(format!("server:diagnostics:{}", spans.len().min(6)));
+                    judge_spans("server", &j.id, &text, &taints, &spans, &j.b.zones, &j.planted, &mut out);
+                }
+            }
+            let _ = ls.notify("textDocument/didClose", did_close(&uri));
+            outs.push(out);
+        }
+        ls.shutdown(&cfg0)?;
+        Ok(())
+    })();
+    if let Err(e) = r {
+        if outs.iter().all(|o| !o.panicked) {
+            let mut out = Out { fails: vec![], counts: vec![], words_checked: 0, panicked: false };
+            out.counts.push(format!("server:session-error:{}", trunc(&e.to_string(), 60)));
+            outs.push(out);
+        }
+    }
+    outs
+}
+
+fn report_site(sess: &mut Session, stream: &str, ext: &str, j: &SiteJob, o: Out) {
+    sess.o();
+    sess.count(&format!("{}:front:{}{}", stream, j.id, if ext.is_empty() { String::new() } else { format!(".{}", ext) }));
+    for c in &o.counts {
+        sess.count(c);
+    }
+    sess.add(&format!("{}:sentinels-judged", stream), o.words_checked as u64);
+    if o.fails.is_empty() && j.planted.len() >= 2 && !j.b.text.is_ascii() {
+        sess.nontrivial(&format!("{}|{}|{}", stream, ext, j.b.text));
+    }
+    for (class, desc) in o.fails {
+        let what = desc.split('`').nth(1).unwrap_or("-").to_string();
+        sess.count(&format!("ofail:{}:{}:{}", class, j.id, what));
+        sess.fail(&class, format!("[{} {}{}] {}", stream, j.id, if j.ilt { "+ilt" } else { "" }, desc), site_input(stream, j, ext), None);
+    }
+}
+
+/// the server's own dispatch: `textDocument/didOpen` with every language id of its table
+fn server_stream(sess: &mut Session, ctx: &Ctx, rng: &mut Rng, markers: &[String], only: Option<SiteJob>) {
+    crate::lsclient::set_home(&ctx.out.join("c04-home"));
+    let linters = spelling_only();
+    let ids = frontends::language_ids();
+    let per = if ctx.tier == Tier::Thorough { 60 } else { 4 };
+    let mut groups: Vec<Vec<SiteJob>> = vec![];
+    if let Some(j) = only {
+        groups.push(vec![j]);
+    } else {
+        for id in &ids {
+            if frontends::parser_for(id, false).is_none() {
+                continue;
+            }
+            let mut r = rng.fork();
+            groups.push(site_files(&mut r, id, per, markers, 4));
+        }
+    }
+    let outs = par_map(groups.len(), 8, |i| server_session(&groups[i], &linters));
+    let mut complete = true;
+    for (g, os) in groups.iter().zip(outs.into_iter()) {
+        if os.len() != g.len() {
+            complete = false;
+        }
+        for (j, o) in g.iter().zip(os.into_iter()) {
+            report_site(sess, "server", "", j, o);
+        }
+    }
+    sess.monitor("every in-process language-server session of the C04 stream ran to its end", complete);
+}
+
+/// file extension → language id, read from `CommentParser::filename_to_filetype` and the
+/// command line's own `load_file`
+fn cli_extensions() -> Vec<(String, String)> {
+    let mut out: Vec<(String, String)> = vec![("md".into(), "markdown".into()), ("lhs".into(), "lhaskell".into()), ("typ".into(), "typst".into())];
+    if let Ok(src) = std::fs::read_to_string("/repo/harper-comments/src/comment_parser.rs") {
+        if let Some(a) = src.find("fn filename_to_filetype") {
+            let body = &src[a..];
+            let body = &body[..body.find("fn node_condition").unwrap_or(body.len())];
+            for line in body.lines() {
+                let Some(arrow) = line.find("=>") else { continue };
+                let quoted = |s: &str| -> Vec<String> { s.split('"').enumerate().filter(|(i, _)| i % 2 == 1).map(|(_, x)| x.to_string()).collect() };
+                let (lhs, rhs) = (quoted(&line[..arrow]), quoted(&line[arrow..]));
+                if let Some(id) = rhs.first() {
+                    for e in lhs {
+                        out.push((e, id.clone()));
+                    }
+                }
+            }
+        }
+    }
+    out
+}
+
+/// what a file with this extension IS (the generator that writes it), whatever the table says
+fn language_of_extension(ext: &str) -> Option<&'static str> {
+    Some(match ext {
+        "py" => "python", "nix" => "nix", "rs" => "rust", "ts" => "typescript", "tsx" => "typescriptreact", "js" => "javascript", "jsx" => "javascriptreact",
+        "go" => "go", "c" => "c", "h" => "c", "cpp" => "cpp", "cmake" => "cmake", "rb" => "ruby", "swift" => "swift", "cs" => "csharp", "toml" => "toml",
+        "lua" => "lua", "sh" | "bash" => "shellscript", "java" => "java", "hs" => "haskell", "php" => "php", "dart" => "dart", "scala" | "sbt" | "mill" => "scala",
+        "md" => "markdown", "lhs" => "lhaskell", "typ" => "typst",
+        _ => return None,
+    })
+}
+
+fn cli_binary(sess: &mut Session) -> Option<std::path::PathBuf> {
+    let target = std::path::PathBuf::from(env!("CARGO_MANIFEST_DIR")).join("target").join("lsbin");
+    let built = std::process::Command::new("cargo")
+        .args(["build", "--offline", "--locked", "-p", "harper-cli", "--manifest-path", "/repo/Cargo.toml", "--target-dir"])
+        .arg(&target)
+        .env("CARGO_NET_OFFLINE", "true")
+        .stdout(std::process::Stdio::null())
+        .stderr(std::process::Stdio::null())
+        .status()
+        .map(|s| s.success())
+        .unwrap_or(false);
+    sess.count(if built { "cli:built" } else { "cli:not-built(stream skipped)" });
+    built.then(|| target.join("debug").join("harper-cli"))
+}
+
+/// `harper-cli parse FILE` on one file: the printed tokens are judged like `Document` tokens
+fn cli_eval(bin: &std::path::Path, dir: &std::path::Path, n: usize, ext: &str, j: &SiteJob) -> Out {
+    let mut out = Out { fails: vec![], counts: vec![], words_checked: 0, panicked: false };
+    let file = dir.join(format!("f{}.{}", n, ext));
+    if std::fs::write(&file, &j.b.text).is_err() {
+        out.counts.push("cli:file-not-written".into());
+        return out;
+    }
+    let text: Vec<char> = j.b.text.chars().collect();
+    let taints: Vec<String> = j.b.taints.iter().map(|s| s.to_string()).collect();
+    let Ok(res) = std::process::Command::new(bin).arg("parse").arg(&file).output() else {
+        out.counts.push("cli:not-started".into());
+        return out;
+    };
+    if !res.status.success() {
+        out.panicked = true;
+        let dummy = Zone { s: 0, e: 0, kind: ZK::Ignored, what: String::new() };
+        let err = String::from_utf8_lossy(&res.stderr).to_string();
+        out.fails.push((classify_at("cli", &j.id, "panic", &dummy, &text, &taints), format!("`harper-cli parse f.{}` ended with {:?}: {}", ext, res.status.code(), trunc(&err, 200))));
+        return out;
+    }
+    let mut toks: Vec<Token> = vec![];
+    for line in String::from_utf8_lossy(&res.stdout).lines() {
+        match serde_json::from_str::<Token>(line) {
+            Ok(t) => toks.push(t),
+            Err(_) => {
+                out.counts.push("cli:unreadable-token-line".into());
+            }
+        }
+    }
+    out.counts.push(format!("cli:tokens:{}", if toks.is_empty() { "0" } else { "some" }));
+    let before = out.fails.len();
+    judge(&j.id, &text, &taints, &toks, &j.b.zones, &mut out);
+    // failures that are not a recorded finding carry the call site in their class
+    for f in out.fails[before..].iter_mut() {
+        if !f.0.starts_with("c04-") {
+            f.0 = format!("cli-{}", f.0);
+        }
+    }
+    out
+}
+
+/// the command line's dispatch by file extension
+fn cli_stream(sess: &mut Session, ctx: &Ctx, rng: &mut Rng, markers: &[String], only: Option<(String, SiteJob)>) {
+    let Some(bin) = cli_binary(sess) else { return };
+    let dir = ctx.out.join("c04-cli");
+    let _ = std::fs::create_dir_all(&dir);
+    let per = if ctx.tier == Tier::Thorough { 4 } else { 1 };
+    let mut jobs: Vec<(String, SiteJob)> = vec![];
+    if let Some(o) = only {
+        jobs.push(o);
+    } else {
+        let mut exts = cli_extensions();
+        exts.sort();
+        exts.dedup();
+        for (ext, table_id) in exts {
+            // a file of the language the extension stands for; an extension this list does not
+            // know is exercised with the language the table gives it
+            let id = language_of_extension(&ext).map(|s| s.to_string()).unwrap_or(table_id);
+            // (one process start of the unoptimised executable costs ≈ 2 s: a few long files per
+            // extension rather than many short ones)
+            let mut r = rng.fork();
+            for _ in 0..per {
+                let b = cgen::gen_long(&mut r, &id, false, markers, 5).or_else(|| cgen::gen_file(&mut r, &id, false, markers));
+                let Some(mut b) = b else { break };
+                let planted = cgen::plant(&mut r, &mut b);
+                jobs.push((ext.clone(), SiteJob { id: id.clone(), ilt: false, b, planted }));
+            }
+        }
+    }
+    let outs = par_map(jobs.len(), 16, |i| cli_eval(&bin, &dir, i, &jobs[i].0, &jobs[i].1));
+    for ((ext, j), o) in jobs.iter().zip(outs.into_iter()) {
+        report_site(sess, "cli", ext, j, o);
+    }
+}
+
+/// the JS API: `harper_wasm::Linter::lint(text, Language::Markdown | Language::Plain)` with the
+/// spelling rule alone; the reported lint spans are judged
+fn wasm_stream(sess: &mut Session, ctx: &Ctx, rng: &mut Rng, markers: &[String], only: Option<SiteJob>) {
+    use harper_wasm::{Dialect as WDialect, Language, Linter as WLinter};
+    let per = if ctx.tier == Tier::Thorough { 2000 } else { 150 };
+    let mut jobs: Vec<SiteJob> = vec![];
+    if let Some(j) = only {
+        jobs.push(j);
+    } else {
+        for id in ["markdown", "plaintext"] {
+            let mut r = rng.fork();
+            jobs.extend(site_files(&mut r, id, per, markers, 0));
+        }
+    }
+    let linters = spelling_only().to_string();
+    let Ok(mut js) = guarded(|| WLinter::new(WDialect::American)) else {
+        sess.monitor("harper_wasm::Linter::new returns", false);
+        return;
+    };
+    if js.set_lint_config_from_json(linters).is_err() {
+        sess.count("wasm:config-rejected(stream skipped)");
+        return;
+    }
+    for j in &jobs {
+        let mut out = Out { fails: vec![], counts: vec![], words_checked: 0, panicked: false };
+        let text: Vec<char> = j.b.text.chars().collect();
+        let taints: Vec<String> = j.b.taints.iter().map(|s| s.to_string()).collect();
+        let lang = if j.id == "markdown" { Language::Markdown } else { Language::Plain };
+        let t = j.b.text.clone();
+        match guarded(std::panic::AssertUnwindSafe(|| js.lint(t, lang))) {
+            Ok(lints) => {
+                let spans: Vec<(usize, usize)> = lints.iter().map(|l| (l.span().start, l.span().end)).collect();
+                judge_spans("wasm", &j.id, &text, &taints, &spans, &j.b.zones, &j.planted, &mut out);
+            }
+            Err(e) => {
+                out.panicked = true;
+                out.fails.push(("wasm-panic".into(), format!("harper_wasm::Linter::lint panicked: {}", trunc(&e, 200))));
+            }
+        }
+        report_site(sess, "wasm", "", j, out);
+    }
+}
+
+/// files derived from generated ones (ground truth kept): long files, no final line end, leading
+/// blank lines, lone CR; and documents without prose in every language
+fn derived_jobs(ctx: &Ctx, rng: &mut Rng, ids: &[String], markers: &[String]) -> Vec<(String, bool, B)> {
+    let mut out = vec![];
+    let per = if ctx.tier == Tier::Thorough { 400 } else { 40 };
+    for id in ids {
+        if frontends::parser_for(id, false).is_none() {
+            continue;
+        }
+        let mut r = rng.fork();
+        for d in cgen::EDGE_DOCS {
+            let mut b = B::new(false);
+            b.text = d.to_string();
+            b.n = b.text.chars().count();
+            b.feats.push("no-prose");
+            out.push((id.clone(), false, b));
+        }
+        for k in 0..per {
+            let ilt = k % 5 == 4;
+            match k % 4 {
+                0 => {
+                    let parts = if ctx.tier == Tier::Thorough && k % 40 == 0 { 60 } else { r.range(3, 8) };
+                    if let Some(b) = cgen::gen_long(&mut r, id, ilt, markers, parts) {
+                        out.push((id.clone(), ilt, b));
+                    }
+                }
+                1 => {
+                    if let Some(mut b) = cgen::gen_file(&mut r, id, ilt, markers) {
+                        if cgen::strip_final_eol(&mut b) {
+                            out.push((id.clone(), ilt, b));
+                        }
+                    }
+                }
+                2 => {
+                    if let Some(mut b) = cgen::gen_file(&mut r, id, ilt, markers) {
+                        if cgen::prepend_blank_lines(&mut r, id, &mut b) {
+                            out.push((id.clone(), ilt, b));
+                        }
+                    }
+                }
+                _ => {
+                    if let Some(mut b) = cgen::gen_file(&mut r, id, ilt, markers) {
+                        if cgen::lone_cr(id, &mut b) {
+                            out.push((id.clone(), ilt, b));
+                        }
+                    }
+                }
+            }
+        }
+    }
+    out
+}
+
 pub fn run(ctx: &Ctx) {
     let mut sess = Session::new(ctx);
     let mut rng = Rng::new(ctx.seed);
     if let Some(v) = replay_input(ctx) {
         if v.get("kop").is_some() {
             kglue::replay(&mut sess, &v);
+        } else if let Some(stream) = v["stream"].as_str() {
+            // w25: a failure recorded at another call site
+            let markers = cgen::ignore_markers();
+            let j = site_job_from_json(&v);
+            match stream {
+                "server" => server_stream(&mut sess, ctx, &mut rng, &markers, Some(j)),
+                "cli" => cli_stream(&mut sess, ctx, &mut rng, &markers, Some((v["ext"].as_str().unwrap_or("md").to_string(), j))),
+                _ => wasm_stream(&mut sess, ctx, &mut rng, &markers, Some(j)),
+            }
         } else {
             let id = v["frontend"].as_str().unwrap_or("markdown").to_string();
             let ilt = v["ilt"].as_bool().unwrap_or(false);
@@ -364,8 +874,21 @@ pub fn run(ctx: &Ctx) {
         }
         run_batch(&mut sess, jobs);
     }
+    // 3. (w25) derived families: long files, no final line end, leading blank lines, lone CR,
+    //    documents without prose
+    if only.is_none() {
+        let jobs: Vec<Job> = derived_jobs(ctx, &mut rng, &ids, &markers).into_iter().map(|(id, ilt, b)| Job { id, ilt, b }).collect();
+        run_batch(&mut sess, jobs);
+    }
+    // 4. (w25) the other call sites of the front-ends
+    if only.is_none() {
+        // (the command line is built with cargo, which needs the real HOME: before `set_home`)
+        cli_stream(&mut sess, ctx, &mut rng, &markers, None);
+        server_stream(&mut sess, ctx, &mut rng, &markers, None);
+        wasm_stream(&mut sess, ctx, &mut rng, &markers, None);
+    }
     sess.finish(
-        "K: Lean glue models vs the real glue — byte_spans_to_char_spans + Mask::push_allowed + merge_whitespace_sep through TreeSitterMasker::create_mask (real tree-sitter node byte ranges passed as data), CommentMasker::create_mask (masker.rs compiled in with #[path]: tree-sitter mask, then the ignore-marker filter with the default ignore_condition, then Mask::from_iter; op `cmask`: every marker spelling and near-misses, `#!` spans, merged neighbours; on the REAL masks the oracle checks kept = spans of the tree-sitter mask without a marker / leading `#!`, in order), parsers::Mask through a public Masker with recorded inner-parser tokens, Unit/JsDoc line splitting and leader stripping and the JSDoc inline-tag marker through the real comment parsers with a recording inner parser, with the span-only faithfulness predicate of jsdocParse_span_faithful / javadocParse_span_faithful evaluated on the REAL JsDoc / JavaDoc output of every such case (same spans in the same order as the recorded inner tokens shifted to the stripped line / comment body, kinds kept or Unlintable, line breaks at Σ(len+1)+len, only `*`/space leaders lost; in bounds and ordered when the inner tokens are), the Literate Haskell masker through LiterateHaskellParser, the git-commit cut, OffsetCursor::push_to, the Markdown traversed_bytes/chars advance against pulldown-cmark's real event ranges; corpus, exhaustive small scope (all line lists / texts over small alphabets), structured random with multi-byte text. O: for EVERY language id of the server's table, files assembled from code | comment | markup segments with recorded ground truth (prose = plain dictionary words; multi-byte, astral and combining characters in string literals, code, tags, math, inline code; random indentation; line/block/doc/nested comments; LF and CRLF): every prose word is exactly one Word token at its true character offset; no token other than Unlintable/Url/whitespace/breaks overlaps a non-prose segment; no Word overlaps a delimiter; comments with an ignore marker, shebang lines and the `#` part of a commit message contribute no tokens. Non-trivial = a generated file with ≥3 distinct constructs and non-ASCII content; distinct by text.",
+        "K: Lean glue models vs the real glue — byte_spans_to_char_spans + Mask::push_allowed + merge_whitespace_sep through TreeSitterMasker::create_mask (real tree-sitter node byte ranges passed as data), CommentMasker::create_mask (masker.rs compiled in with #[path]: tree-sitter mask, then the ignore-marker filter with the default ignore_condition, then Mask::from_iter; op `cmask`: every marker spelling and near-misses, `#!` spans, merged neighbours; on the REAL masks the oracle checks kept = spans of the tree-sitter mask without a marker / leading `#!`, in order), parsers::Mask through a public Masker with recorded inner-parser tokens, Unit/JsDoc line splitting and leader stripping and the JSDoc inline-tag marker through the real comment parsers with a recording inner parser, with the span-only faithfulness predicate of jsdocParse_span_faithful / javadocParse_span_faithful evaluated on the REAL JsDoc / JavaDoc output of every such case (same spans in the same order as the recorded inner tokens shifted to the stripped line / comment body, kinds kept or Unlintable, line breaks at Σ(len+1)+len, only `*`/space leaders lost; in bounds and ordered when the inner tokens are), the Literate Haskell masker through LiterateHaskellParser, the git-commit cut, OffsetCursor::push_to, the Markdown traversed_bytes/chars advance against pulldown-cmark's real event ranges; corpus, exhaustive small scope (all line lists / texts over small alphabets), structured random with multi-byte text. O: for EVERY language id of the server's table, files assembled from code | comment | markup segments with recorded ground truth (prose = plain dictionary words; multi-byte, astral and combining characters in string literals, code, tags, math, inline code; random indentation; line/block/doc/nested comments; LF and CRLF): every prose word is exactly one Word token at its true character offset; no token other than Unlintable/Url/whitespace/breaks overlaps a non-prose segment; no Word overlaps a delimiter; comments with an ignore marker, shebang lines and the `#` part of a commit message contribute no tokens. The same on files derived from generated ones with the ground truth kept (3–8 files in a row, one of 60 in the thorough tier; without the final line end; with leading blank lines; lone CR as line end for Markdown / Typst / plain) and on 14 documents without prose per language id. At the other call sites, on generated files in which some prose words are replaced by a misspelled sentinel, with the spelling rule alone: (server) didOpen under every language id through the real Backend::update_document, published ranges read back as character ranges; (cli) the real `harper-cli parse FILE` for every file extension of CommentParser::filename_to_filetype and load_file, printed tokens judged like Document tokens; (wasm) harper_wasm::Linter::lint with Language::Markdown / Plain — every sentinel is flagged exactly once at exactly its range, nothing is flagged inside a non-prose, ignored or delimiter segment or a correctly spelled prose word. Non-trivial = a generated file with ≥3 distinct constructs and non-ASCII content; distinct by text.",
         true,
         json!({"language_ids": ids, "ignore_markers": markers, "files_per_language": per_front}),
     );
